@@ -645,6 +645,7 @@ class ProgGen:
   def __init__(self, rng, heap, args):
     self.rng = rng
     self.heap = copy.deepcopy(heap)
+    self.n0 = len(heap)
     self.env = [copy.deepcopy(a) for a in args]
     self.body = []
     self.structural = False
@@ -759,8 +760,10 @@ class ProgGen:
     rng = self.rng
     ar = self.arr_regs()
     refs = self.regs(lambda v: isinstance(v, dict) and 'r' in v) if allow_refs else []
-    if allow_refs == 'vars':  # cached_partial: returned Variables are the caller's own, returned graph nodes are clones
-      refs = self.var_regs()
+    if allow_refs == 'vars':
+      # cached_partial: returned Variables of the arguments are the caller's own objects; returned graph nodes are clones;
+      # a NEW bare Variable as result hits `assert isinstance(graphdef, NodeDef)` (probe `cached-partial-bare-variable-result`)
+      refs = [r for r in self.var_regs() if self.env[r]['r'] < self.n0]
     ret = []
     if ar:
       ret.append(rng.choice(ar))
@@ -1539,6 +1542,15 @@ PROBES = [
     {'G': {'heap': [{'cls': 'A', 'attrs': [['w', {'r': 1}]]}, {'vt': VT_MRO['Param'], 'val': 3, 'md': []}, {'vt': VT_MRO['Param'], 'val': 5, 'md': []}]},
      'spec': {'kind': 'cached_partial', 'ncached': 1, 'fn': {'body': [{'op': 'readVar', 'r': 1}, {'op': 'setVar', 'r': 1, 'e': {'add': [{'r': 2}, {'c': 1}]}}], 'ret': [2]}},
      'steps': [{'call': [{'r': 0}, {'r': 2}]}]},
+  ),
+  (
+    'cached-partial-bare-variable-result',
+    'a function under nnx.cached_partial that RETURNS a new bare nnx.Variable (return nnx.Param(...)) raises AssertionError '
+    '(MergeContext.unflatten: `assert isinstance(graphdef, NodeDef)` on the static-cache path); returning one of the '
+    "arguments' own Variables, or the new Variable inside a new node, works, and so does the same function under nnx.jit",
+    {'G': {'heap': [{'cls': 'A', 'attrs': [['w', {'r': 1}]]}, {'vt': VT_MRO['Param'], 'val': 3, 'md': []}]},
+     'spec': {'kind': 'cached_partial', 'ncached': 1, 'fn': {'body': [{'op': 'newVar', 'vt': VT_MRO['Param'], 'e': {'c': 4}, 'md': []}], 'ret': [1]}},
+     'steps': [{'call': [{'r': 0}]}]},
   ),
   (
     'cached-partial-array-attribute',
